@@ -806,8 +806,12 @@ func parseStringLiteral(literal string) (string, error) {
 			case '1', '2', '3', '4', '5', '6', '7':
 				// TODO strict
 				value = rune(chr) - '0'
+				digits := 2 // ZeroToThree OctalDigit OctalDigit
+				if chr >= '4' {
+					digits = 1 // FourToSeven OctalDigit (ES5 B.1.2): the value stays below 256
+				}
 				j := 0
-				for ; j < 2; j++ {
+				for ; j < digits; j++ {
 					if len(str) < j+1 {
 						break
 					}
